@@ -205,6 +205,9 @@ inline auto reg() -> Registry&
     return r;
 }
 
+// constructions and assignments of instrumented objects so far: user code the library has called
+inline bool const g_userCallsInstalled = (g_user_calls = [] { return reg().constructs + reg().assigns; }, true);
+
 inline constexpr int kMovedFrom = -7777;
 
 enum class Kind { copy_move, move_only, copy_only };
